@@ -112,6 +112,40 @@ def main():
 
     rp = json.load(open(path))
     print(f"replay unit={rp.get('unit')} obligation={rp.get('obligation')} dims={rp.get('dims')}")
+    if rp.get("native"):
+        # a unit that runs a HISTORY of calls (or stubs a collaborator): the same history is run natively on the witness
+        # inputs by concrete/scenarios.py; the labelled outputs are compared with the values of the counter-model
+        nat = rp["native"]
+        if "extraction_error" in nat:
+            print("REPLAY-ERROR: extraction", nat["extraction_error"])
+            return 5
+        sys.path.insert(0, os.path.dirname(os.path.abspath(__file__)))
+        import scenarios
+
+        ins = {k: build(v) for k, v in nat["inputs"].items()}
+        try:
+            outs = scenarios.SCENARIOS[nat["scenario"]](ins, rp.get("witness_scalars", {}), rp.get("dims", {}), nat.get("params", {}))
+        except AssertionError as e:
+            print(f"native scenario {nat['scenario']} raised AssertionError: {e}")
+            return 0 if rp.get("kind") == "assert" else 4
+        except Exception as e:
+            print(f"native scenario {nat['scenario']} raised {type(e).__name__}: {e}")
+            return 0 if rp.get("kind") == "wf" else 4
+        allok, n = True, 0
+        for lab, exp in nat["expected"].items():
+            if lab not in outs:
+                continue
+            n += 1
+            ok, msg = close(outs[lab], exp)
+            if not ok:
+                print(f"native output '{lab}' differs from the symbolic prediction: {msg}")
+                allok = False
+        print(f"ran native scenario {nat['scenario']}: {n} labelled outputs compared")
+        if allok and n:
+            print("CONFIRMED: the real code produces the outputs under which the obligation is false")
+            return 0
+        print("NOT-CONFIRMED")
+        return 4
     if not rp.get("calls"):
         print("NOT-CONFIRMED: no concrete call recorded (", rp.get("note", ""), ")")
         return 4
